@@ -186,7 +186,7 @@ type eop struct {
 	kind   string
 	code   func(x string, step int, L func(string) string) string
 	apply  func(m model) (result string) // updates the model; result "" if the operation prints nothing
-	isect  model                         // for the `&` observer
+	arg    model                         // argument of + (to classify the shared-key length defect)
 	label  string
 }
 
@@ -209,23 +209,23 @@ func (f *flavour) ops() []eop {
 		}
 		for _, g := range []model{{0: 2}, {1: 1, 2: 2}} {
 			g := g
-			ops = append(ops, eop{kind: "+", label: "x=x+" + f.litAs(g, "map"),
+			ops = append(ops, eop{kind: "+", arg: g, label: "x=x+" + f.litAs(g, "map"),
 				code:  func(x string, _ int, L func(string) string) string { return fmt.Sprintf("%s = %s + %s", x, x, L(f.litAs(g, "map"))) },
 				apply: func(m model) string { mergeInto(m, g); return "" }})
 		}
 		g := model{0: 1, 3: 2}
-		ops = append(ops, eop{kind: "+", label: "x=x+" + f.litAs(g, "record"),
+		ops = append(ops, eop{kind: "+", arg: g, label: "x=x+" + f.litAs(g, "record"),
 			code:  func(x string, _ int, L func(string) string) string { return fmt.Sprintf("%s = %s + %s", x, x, L(f.litAs(g, "record"))) },
 			apply: func(m model) string { mergeInto(m, g); return "" }})
 	case "record":
 		for _, g := range []model{{0: 1}, {0: 2}, {1: 2}, {1: 1, 2: 1}, {3: 1}} {
 			g := g
-			ops = append(ops, eop{kind: "+", label: "x=x+" + f.litAs(g, "record"),
+			ops = append(ops, eop{kind: "+", arg: g, label: "x=x+" + f.litAs(g, "record"),
 				code:  func(x string, _ int, L func(string) string) string { return fmt.Sprintf("%s = %s + %s", x, x, L(f.litAs(g, "record"))) },
 				apply: func(m model) string { mergeInto(m, g); return "" }})
 		}
 		g := model{0: 2, 2: 2}
-		ops = append(ops, eop{kind: "+", label: "x=x+" + f.litAs(g, "map"),
+		ops = append(ops, eop{kind: "+", arg: g, label: "x=x+" + f.litAs(g, "map"),
 			code:  func(x string, _ int, L func(string) string) string { return fmt.Sprintf("%s = %s + %s", x, x, L(f.litAs(g, "map"))) },
 			apply: func(m model) string { mergeInto(m, g); return "" }})
 	case "set":
@@ -364,6 +364,7 @@ func runElkBatch(r *engine.R, f *flavour, ops []eop, items []elkItem, base int) 
 	type exp struct {
 		lines []string // expected output lines
 		kinds []string // op kind responsible for each line
+		shared []int   // number of keys shared by the operands of + (0 otherwise)
 		desc  string
 	}
 	var exps []exp
@@ -392,31 +393,43 @@ func runElkBatch(r *engine.R, f *flavour, ops []eop, items []elkItem, base int) 
 			fmt.Fprintf(&code, "var %s: %s = %s\n", x, f.typ(), L(f.lit(m)))
 		}
 		desc := []string{"x = " + f.lit(m)}
-		emitObs := func(kind string) {
+		emitObs := func(kind string, shared int) {
 			fmt.Fprintf(&code, "println(obs_%s(%s))\n", f.id, x)
 			e.lines = append(e.lines, "OBS "+fieldsString(f.expect(m)))
 			e.kinds = append(e.kinds, kind)
+			e.shared = append(e.shared, shared)
 			if f.family == "set" {
 				fmt.Fprintf(&code, "println(obs_%s(%s & %s))\n", f.id, x, f.litAs(isectArg, "set"))
 				e.lines = append(e.lines, "OBS "+fieldsString(f.expect(intersect(m, isectArg))))
 				e.kinds = append(e.kinds, "& (after "+kind+")")
+				e.shared = append(e.shared, 0)
 			}
 		}
-		emitObs("literal")
+		emitObs("literal", 0)
 		for step, oi := range it.seq {
 			op := ops[oi]
 			code.WriteString(op.code(x, step, L) + "\n")
 			desc = append(desc, op.label)
+			shared := 0
+			if f.family != "set" {
+				for k := range op.arg {
+					if _, ok := m[k]; ok {
+						shared++
+					}
+				}
+			}
 			if res := op.apply(m); res != "" {
 				e.lines = append(e.lines, res)
 				e.kinds = append(e.kinds, op.kind)
+				e.shared = append(e.shared, 0)
 			}
-			emitObs(op.kind)
+			emitObs(op.kind, shared)
 		}
 		// equality with a literal of the same content and of different content
 		fmt.Fprintf(&code, "e%s := %s == %s\nprintln(\"eq=\" + e%s.inspect)\n", x, x, L(f.lit(m)), x)
 		e.lines = append(e.lines, "eq=true")
 		e.kinds = append(e.kinds, "== same content")
+		e.shared = append(e.shared, 0, 0)
 		d := m.clone()
 		if _, ok := d[3]; ok {
 			delete(d, 3)
@@ -451,8 +464,8 @@ func runElkBatch(r *engine.R, f *flavour, ops []eop, items []elkItem, base int) 
 		// compare the lines printed before any failure
 		bad, undefReported := false, false
 		for li := 0; li < len(got) && li < len(e.lines); li++ {
-			if vs := compareLine(f, e.lines[li], got[li], e.kinds[li]); len(vs) > 0 {
-				if len(vs) == 1 && strings.HasPrefix(vs[0].sig, "[] of an absent key") {
+			if vs := compareLine(f, e.lines[li], got[li], e.kinds[li], e.shared[li]); len(vs) > 0 {
+				if len(vs) == 1 && vs[0].sig == undefSig {
 					// the state is otherwise sound: report once per program and keep comparing
 					if !undefReported {
 						undefReported = true
@@ -462,7 +475,14 @@ func runElkBatch(r *engine.R, f *flavour, ops []eop, items []elkItem, base int) 
 					continue
 				}
 				for _, v := range vs {
-					r.Violation(sigp+v.sig, fmt.Sprintf("%s\nline %d: expected %q\n          printed %q\n%s", e.desc, li, e.lines[li], got[li], v.detail), input)
+					if v.sig == undefSig && undefReported {
+						continue
+					}
+					pre := sigp
+					if v.sig == undefSig || v.sig == sharedKeySig {
+						pre = "elk "
+					}
+					r.Violation(pre+v.sig, fmt.Sprintf("%s\nline %d: expected %q\n          printed %q\n%s", e.desc, li, e.lines[li], got[li], v.detail), input)
 					r.Outcome("wrong:" + v.sig)
 				}
 				bad = true
@@ -507,7 +527,7 @@ func fieldsString(o obsFields) string {
 }
 
 // compareLine returns the violations of one output line (field by field for observation lines).
-func compareLine(f *flavour, want, got, kind string) []viol {
+func compareLine(f *flavour, want, got, kind string, shared int) []viol {
 	if want == got {
 		return nil
 	}
@@ -537,14 +557,18 @@ func compareLine(f *flavour, want, got, kind string) []viol {
 			}
 		}
 		if undef {
-			vs = append(vs, viol{sig: "[] of an absent key yields the undefined sentinel instead of nil", detail: "show() printed ? : the value is falsy but neither nil nor false"})
+			vs = append(vs, viol{sig: undefSig, detail: "show() printed ? : the value is falsy but neither nil nor false"})
 		}
 		if rest {
 			vs = append(vs, viol{sig: "[] returns a wrong value after " + kind, detail: ""})
 		}
 	}
 	if w.len != g.len {
-		vs = append(vs, viol{sig: "length wrong after " + kind, detail: ""})
+		if wl, gl := atoi(w.len), atoi(g.len); kind == "+" && shared > 0 && gl == wl+shared && w.has == g.has && w.pair == g.pair && w.iter == g.iter {
+			vs = append(vs, viol{sig: sharedKeySig, detail: fmt.Sprintf("the operands share %d key(s); every lookup and the iteration agree with the model, only length is too large by %d", shared, shared)})
+		} else {
+			vs = append(vs, viol{sig: "length wrong after " + kind, detail: ""})
+		}
 	}
 	if w.has != g.has {
 		name := "contains_key"
@@ -563,6 +587,18 @@ func compareLine(f *flavour, want, got, kind string) []viol {
 		vs = append(vs, viol{sig: "iteration wrong after " + kind, detail: "count/fingerprint of iterated entries differ"})
 	}
 	return vs
+}
+
+// sharedKeySig: one defect (the bulk copy used by + counts a key that is already present as a new entry),
+// whatever the flavour of the operands, because every mixed + builds a generic table through that copy.
+const sharedKeySig = "+ of operands sharing a key: length counts the shared key twice"
+
+const undefSig = "[] of an absent key yields the undefined sentinel instead of nil"
+
+func atoi(s string) int {
+	n := 0
+	fmt.Sscanf(s, "%d", &n)
+	return n
 }
 
 func firstDiag(d string) string {
